@@ -33,8 +33,10 @@ def total_derivatives(g, coords, t, upto):
     return out
 
 
-def lift_contract(kind):
-    """kind in {'ode', 'residual'}: lifting by m returns the 0..m-th total time derivatives."""
+def lift_contract(kind, via_max=False):
+    """kind in {'ode', 'residual'}: lifting by m returns the 0..m-th total time derivatives.
+    ``via_max``: the lift is requested through ``jet_lift_max(num_tcoeffs=...)`` (as many orders as a state with that
+    many Taylor coefficients can constrain: outputs up to the highest coefficient)."""
     cls = "JetOde" if kind == "ode" else "JetResidual"
 
     def make_obj(coef, m, D, order):
@@ -49,7 +51,12 @@ def lift_contract(kind):
     def wrap(target):
         def f(coef, coords, t, *, m, D, order, lift):
             obj = make_obj(coef, m, D, order)
-            lifted = target(obj, lift_by=lift)
+            if via_max:
+                # an ODE u^(k) = f(u..u^(k-1)) on a state with N coefficients constrains u^(k)..u^(N-1): N = k + lift + 1;
+                # a residual on k coefficients lifted to all N of them: N = k + lift
+                lifted = target(obj, num_tcoeffs=order + lift + (1 if kind == "ode" else 0))
+            else:
+                lifted = target(obj, lift_by=lift)
             fn = lifted.vector_field if kind == "ode" else lifted.residual_function
             out = fn(jet_coords=list(coords), t=t)
             meta = (lifted.num_tcoeffs_in_args, tuple(lifted.tcoeff_indices_output) if kind == "ode" else ())
@@ -92,7 +99,8 @@ def lift_contract(kind):
             out.append(Instance(f"m={m},D={D},order={order},lift={lift}" + (f",surplus={surplus}" if surplus else ""), make, names=lambda a, k: {id(a[0]): "coef", id(a[2]): "t", **{id(x): f"c{i}" for i, x in enumerate(a[1])}}))
         return out
 
-    return Contract(name=f"{MOD}:{cls}.jet_lift", module=MOD, qualname=f"{cls}.jet_lift", wrap=wrap, ensures=ensures, instances=instances,
+    meth = "jet_lift_max" if via_max else "jet_lift"
+    return Contract(name=f"{MOD}:{cls}.{meth}", module=MOD, qualname=f"{cls}.{meth}", wrap=wrap, ensures=ensures, instances=instances,
                     doc="outputs of the lifted function are exactly the 0..m-th total time derivatives along any curve with the supplied Taylor coefficients (explicit time dependence included); index bookkeeping")
 
 
@@ -153,4 +161,4 @@ def residual_from_stack_contract():
 
 
 def contracts():
-    return [lift_contract("ode"), lift_contract("residual"), residual_from_ode_contract(), residual_from_stack_contract()]
+    return [lift_contract("ode"), lift_contract("residual"), lift_contract("ode", via_max=True), lift_contract("residual", via_max=True), residual_from_ode_contract(), residual_from_stack_contract()]
